@@ -149,7 +149,7 @@ func TestC16(t *testing.T) {
 	} else {
 		c.Assumption("python3 not available: hashlib.scrypt differential skipped")
 	}
-	c.Assumption("size bound: accepted calls are generated with N <= 2^12, N*r*p <= 2^13 (quick) / 2^17 (thorough) and a working set below 64 MiB; keyLen in (300, (2^32-1)*32] and accepted parameter sets above 64 MiB are outside the explored domain (they only cost memory)")
+	c.Assumption("size bound: accepted calls are generated with N <= 2^12, N*r*p <= 2^13 (quick) / 2^17 (thorough) and a working set below 64 MiB; keyLen in (300, (2^32-1)*32] and accepted parameter sets above 64 MiB are outside the generated domain (they only cost memory); the enumerated N sweep goes up to N = 2^20 with r = p = 1 (128 MiB)")
 	maxWork := ev.Scale(1<<13, 1<<17)
 
 	// Known finding F2 (keyLen <= 0 / overflow-sized keyLen panics through pbkdf2): replay the witnesses.
@@ -321,6 +321,69 @@ func TestC16(t *testing.T) {
 		}
 	}
 	c.Exhaustive("grid N(15 values) x r,p in -2..3 x keyLen in -5..5 (this shard)", n)
+	// Field-value sweep over N: every power of two 2^1..2^20 (r = p = 1) must give the RFC 7914 key; every other
+	// value in 0..65, 2^k-1 / 2^k+1 / -(2^k) for every k, MinInt and MaxInt must be rejected.
+	{
+		m := 0
+		for e := 1; e <= 20; e++ {
+			idx++
+			if !ev.Mine(idx) {
+				continue
+			}
+			a := c16Args{detBytes("c16.npw", e, e%9), detBytes("c16.nsalt", e, 8), 1 << uint(e), 1, 1, 32 + e, idx}
+			out, err, pan := c16Call(a)
+			if pan != nil || err != nil || len(out) != a.dkl {
+				what := fmt.Sprintf("%v: N = 2^%d is a valid cost parameter: %v %v (%d bytes)", a, e, err, pan, len(out))
+				c.Violation(what, "")
+				t.Fatalf("VF-VIOLATION: property=C16 %s", what)
+			}
+			var want []byte
+			oracle := ""
+			if e <= 16 || ev.Thorough() || !haveClib {
+				want, oracle = refkdf.Scrypt(a.pw, a.salt, a.n, 1, 1, a.dkl), "ref"
+			}
+			if haveClib {
+				sod, ok := clibkdf.ScryptSodium(a.pw, a.salt, uint64(a.n), 1, 1, a.dkl)
+				if ok && want != nil && !bytes.Equal(sod, want) {
+					inconclusiveT(c, t, "oracles disagree on %v: ref %x, libsodium %x", a, want, sod)
+				}
+				if ok && want == nil {
+					want, oracle = sod, "libsodium"
+				}
+			}
+			if !bytes.Equal(out, want) {
+				what := fmt.Sprintf("%v = %x, RFC 7914 value (%s) %x", a, out, oracle, want)
+				c.Violation(what, "")
+				t.Fatalf("VF-VIOLATION: property=C16 %s", what)
+			}
+			c.Case(true, fmt.Sprintf("Nsweep|2^%d", e), "field:N=power-of-two", fmt.Sprintf("field:N=2^%d", e))
+			m++
+		}
+		var bad []int
+		for v := 0; v <= 65; v++ {
+			if !c16ValidN(v) {
+				bad = append(bad, v)
+			}
+		}
+		for k := 2; k <= 62; k++ {
+			bad = append(bad, 1<<uint(k)-1, 1<<uint(k)+1, -(1 << uint(k)))
+		}
+		bad = append(bad, -1, -2, -3, math.MinInt64, math.MinInt64+1, math.MaxInt64, math.MaxInt64-1, 3<<40)
+		for _, v := range bad {
+			idx++
+			if !ev.Mine(idx) || c16ValidN(v) {
+				continue
+			}
+			a := c16Args{[]byte("pw"), []byte("salt"), v, 1, 1, 16, idx}
+			if viol, _, _ := c16Check(a, nil); viol != nil {
+				c.Violation(viol.Error(), "")
+				t.Fatalf("VF-VIOLATION: property=C16 %v", viol)
+			}
+			c.Case(true, fmt.Sprintf("Nsweep|bad|%d", v), "field:N=invalid-value")
+			m++
+		}
+		c.Exhaustive("N field: every power of two 2^1..2^20 (key compared) and 0..65, 2^k+-1, -(2^k), MinInt/MaxInt (rejected) (this shard)", m)
+	}
 	if witnessFailure != nil {
 		c.Violation(witnessFailure.Error(), "")
 		t.Fatalf("VF-VIOLATION: property=C16 %v", witnessFailure)
